@@ -162,7 +162,7 @@ def simplify(e, body):
 def closure_param_binding(consumer, decl, it, n_params):
     """what the closure's parameter stands for, by the consumer it is handed to"""
     if consumer in ("for_each", "map", "filter_map", "flat_map", "for_each_mut", "inspect", "any", "all",
-                    "position", "fold"):
+                    "position", "fold", "try_for_each", "find_map"):
         return ("item", it, "cl")
     if consumer in ("filter", "find", "skip_while", "take_while", "sorted_by_key", "max_by_key", "min_by_key",
                     "retain"):
